@@ -28,6 +28,15 @@ def scan_source():
         src = ""
     m = re.search(r"fn best_datatype_for_variadic_any.*?if input\.datatype\.id == test_type \{[^}]*?total_score \+= (\d+);", src, re.S)
     t["variadic_same_score"] = int(m.group(1)) if m else None
+    # set operations: branch column types are compared as FULL data types (`left == right` on DataType values)
+    try:
+        so = open(os.path.join(common.REPO, "crates/glaredb_core/src/logical/binder/bind_query/bind_setop.rs")).read()
+    except FileNotFoundError:
+        so = ""
+    m = re.search(r"for \(left, right\) in left_types\.into_iter\(\)\.zip\(right_types\) \{\s*if left == right \{\s*(?://[^\n]*\n\s*)*output_types\.push\(left\);", so)
+    t["setop_full_type_equality"] = 1 if m else None
+    m = re.search(r"if left_types\.len\(\) != right_types\.len\(\) \{\s*return Err", so)
+    t["setop_arity_check"] = 1 if m else None
     # how the final choice is made (recorded in the evidence; the model exposes the set of maximal candidates)
     t["uses_sort_unstable_by"] = 1 if re.search(r"candidates\.sort_unstable_by\(", src) else 0
     return t
@@ -72,6 +81,8 @@ def render(d, src):
     for k in ("no_cast_score", "refined_literal_bonus", "default_score_i8", "default_score_i16", "default_score_i32", "default_score_i64"):
         lines.append("Definition %s : option N := %s." % (k, _optn(d.get(k))))
     lines.append("Definition variadic_same_score : option N := %s." % _optn(src.get("variadic_same_score")))
+    lines.append("Definition setop_full_type_equality : option N := %s." % _optn(src.get("setop_full_type_equality")))
+    lines.append("Definition setop_arity_check : option N := %s." % _optn(src.get("setop_arity_check")))
     lines.append("Definition score_table : list (list (option N)) := [")
     lines.append(";\n".join("  [%s]" % "; ".join(_optn(x) for x in row) for row in d["scores"]))
     lines.append("].")
